@@ -479,6 +479,38 @@ impl<'a> Rw<'a> {
     }
 }
 
+
+/// R24: arms of a `match` without guards, equivalent to `arms` (a failed guard falls through to the arms that follow, which are
+/// repeated inside the `else`); the scrutinee is evaluated again there, so the caller makes sure it is a place expression
+fn lower_guards(arms: &[Arm], scrut: &Expr) -> Vec<Arm> {
+    match arms.iter().position(|a| a.guard.is_some()) {
+        None => arms.to_vec(),
+        Some(i) => {
+            let tail = lower_guards(&arms[i + 1..], scrut);
+            let a = &arms[i];
+            let g = &a.guard.as_ref().unwrap().1;
+            let body = &a.body;
+            let pat = &a.pat;
+            let new_arm: Arm = parse_quote!(#pat => if #g { #body } else { match #scrut { #(#tail)* } },);
+            let mut out: Vec<Arm> = arms[..i].to_vec();
+            out.push(new_arm);
+            out.extend(tail);
+            out
+        }
+    }
+}
+fn is_place_expr(e: &Expr) -> bool {
+    match e {
+        Expr::Path(_) => true,
+        Expr::Field(f) => is_place_expr(&f.base),
+        Expr::Paren(p) => is_place_expr(&p.expr),
+        Expr::Unary(u) => matches!(u.op, UnOp::Deref(_)) && is_place_expr(&u.expr),
+        Expr::Reference(r) => is_place_expr(&r.expr),
+        Expr::Tuple(t) => t.elems.iter().all(is_place_expr),
+        _ => false,
+    }
+}
+
 fn pat_as_ident(p: &Pat) -> Option<Ident> {
     match p {
         Pat::Ident(pi) if pi.by_ref.is_none() && pi.subpat.is_none() => Some(pi.ident.clone()),
@@ -776,6 +808,38 @@ impl<'a> VisitMut for Rw<'a> {
                         self.bump("R11.refpat");
                     }
                 }
+            }
+        }
+        if self.enabled("R24") {
+            // match guards: Verus (this version) loses the final value of a `&mut` parameter that is assigned in an arm of a match
+            // that has a guard => `P if G => A, rest..` becomes `P => if G { A } else { match S { rest.. } }, rest..`
+            let mut repl: Option<Expr> = None;
+            if let Expr::Match(m) = e {
+                let ng = m.arms.iter().filter(|a| a.guard.is_some()).count();
+                if ng > 0 && ng <= 3 {
+                    let mut arms = m.arms.clone();
+                    for a in arms.iter_mut() {
+                        if a.comma.is_none() {
+                            a.comma = Some(Default::default());
+                        }
+                    }
+                    if is_place_expr(&m.expr) {
+                        let sc = (*m.expr).clone();
+                        let low = lower_guards(&arms, &sc);
+                        repl = Some(parse_quote!(match #sc { #(#low)* }));
+                    } else {
+                        let t = self.fresh("m");
+                        let sc0 = &m.expr;
+                        let sc: Expr = parse_quote!(#t);
+                        let low = lower_guards(&arms, &sc);
+                        repl = Some(parse_quote!({ let #t = #sc0; match #t { #(#low)* } }));
+                    }
+                }
+            }
+            if let Some(r) = repl {
+                *e = r;
+                self.bump("R24.match_guard");
+                return;
             }
         }
         if self.enabled("R21") {
@@ -1204,6 +1268,18 @@ impl<'ast> syn::visit::Visit<'ast> for HasReturnOrTry {
     }
     fn visit_item(&mut self, _i: &'ast Item) {}
 }
+struct HasLoopOrClosure {
+    found: bool,
+}
+impl<'ast> syn::visit::Visit<'ast> for HasLoopOrClosure {
+    fn visit_expr(&mut self, e: &'ast Expr) {
+        match e {
+            Expr::ForLoop(_) | Expr::While(_) | Expr::Loop(_) | Expr::Closure(_) => self.found = true,
+            _ => syn::visit::visit_expr(self, e),
+        }
+    }
+    fn visit_item(&mut self, _i: &'ast Item) {}
+}
 struct CallsName<'a> {
     name: &'a str,
     found: bool,
@@ -1227,6 +1303,10 @@ impl<'a, 'ast> syn::visit::Visit<'ast> for CallsName<'a> {
 
 #[derive(Clone)]
 struct Helper {
+    /// straight-line reader: `&self` / by-value / `&T` parameters only, no loop, no closure — inlining it is exact and needs no proof aid
+    exact: bool,
+    /// declared return type (kept as a typed `let` around the inlined body so that inference sees what the call site saw)
+    ret: Option<Type>,
     has_self: bool,
     params: Vec<Ident>,
     tys: Vec<Type>,
@@ -1244,11 +1324,15 @@ fn collect_helpers(items: &[Item], self_ty: Option<&str>) -> BTreeMap<String, He
         let mut has_self = false;
         let mut params = Vec::new();
         let mut tys = Vec::new();
+        let mut exact = true;
         for a in &sig.inputs {
             match a {
                 FnArg::Receiver(r) => {
                     if r.reference.is_none() {
                         return; // by-value self: moving semantics, not inlined
+                    }
+                    if r.mutability.is_some() {
+                        exact = false;
                     }
                     has_self = true;
                 }
@@ -1256,6 +1340,9 @@ fn collect_helpers(items: &[Item], self_ty: Option<&str>) -> BTreeMap<String, He
                     Pat::Ident(pi) if pi.by_ref.is_none() && pi.subpat.is_none() => {
                         if t.ty.to_token_stream().to_string().contains('\'') {
                             return; // named lifetimes in a parameter type: not inlined
+                        }
+                        if t.ty.to_token_stream().to_string().contains("mut") {
+                            exact = false;
                         }
                         params.push(pi.ident.clone());
                         tys.push((*t.ty).clone());
@@ -1278,7 +1365,23 @@ fn collect_helpers(items: &[Item], self_ty: Option<&str>) -> BTreeMap<String, He
         if c.found {
             return;
         }
-        out.insert(name, Helper { has_self, params, tys, block: block.clone() });
+        let mut hl = HasLoopOrClosure { found: false };
+        syn::visit::Visit::visit_block(&mut hl, block);
+        if hl.found {
+            exact = false;
+        }
+        let ret: Option<Type> = match &sig.output {
+            ReturnType::Type(_, t) => {
+                let ts = t.to_token_stream().to_string();
+                if ts.contains('\'') || ts.contains("impl ") || ts.contains("Self") || ts.contains('&') {
+                    None
+                } else {
+                    Some((**t).clone())
+                }
+            }
+            ReturnType::Default => None,
+        };
+        out.insert(name, Helper { exact, ret, has_self, params, tys, block: block.clone() });
     };
     for it in items {
         match it {
@@ -1305,12 +1408,16 @@ struct Inliner<'a> {
     known: &'a [String],
     self_ty: Option<String>,
     n: u32,
+    n_inexact: u32,
     depth: u32,
     uniq: u32,
 }
 impl<'a> Inliner<'a> {
     fn expand(&mut self, h: &Helper, args: Vec<Expr>) -> Expr {
         self.uniq += 1;
+        if !h.exact {
+            self.n_inexact += 1;
+        }
         let u = self.uniq;
         let tmps: Vec<Ident> = (0..args.len()).map(|i| Ident::new(&format!("__vx_arg{}_{}", u, i), Span::call_site())).collect();
         let stmts = &h.block.stmts;
@@ -1336,11 +1443,22 @@ impl<'a> Inliner<'a> {
             }
             bound.push(p.to_string());
         }
-        let mut e: Expr = parse_quote!({
-            #(#pre)*
-            #(#binds)*
-            #(#stmts)*
-        });
+        let mut e: Expr = match &h.ret {
+            Some(rt) => {
+                let rv = Ident::new(&format!("__vx_ret{}", u), Span::call_site());
+                parse_quote!({
+                    #(#pre)*
+                    #(#binds)*
+                    let #rv: #rt = { #(#stmts)* };
+                    #rv
+                })
+            }
+            None => parse_quote!({
+                #(#pre)*
+                #(#binds)*
+                #(#stmts)*
+            }),
+        };
         // helpers calling helpers
         if self.depth < 3 {
             self.depth += 1;
@@ -1851,11 +1969,15 @@ fn do_fn(items: &[Item], req: &ItemReq, feats: &[String]) -> std::result::Result
         let own = req.path.rsplit("::").next().unwrap_or("").to_string();
         let mut known = req.known_fns.clone();
         known.push(own);
-        let mut inl = Inliner { helpers: &helpers, known: &known, self_ty, n: 0, depth: 0, uniq: 0 };
+        let mut inl = Inliner { helpers: &helpers, known: &known, self_ty, n: 0, n_inexact: 0, depth: 0, uniq: 0 };
         inl.visit_block_mut(&mut block);
         inlined = inl.n;
         if inl.n > 0 {
             counts.insert("R23.inline_helper".to_string(), inl.n);
+        }
+        if inl.n_inexact > 0 {
+            // helpers with a loop / closure / `&mut` access: their inlined body may need proof aids the unit does not have
+            counts.insert("R23.inline_helper_needs_proof_aid".to_string(), inl.n_inexact);
         }
     }
     if inlined > 0 {
